@@ -13,6 +13,7 @@ def opCtx (w : World) : Op → Option CtxId
   | .new _ c _ => some c
   | .enter _ c => some c
   | .exit _ c _ => some c
+  | .exitMid _ c _ _ => some c
   | .add c _ => some c
   | .addFactory c _ => some c
   | .getNowait c _ _ => some c
@@ -51,6 +52,7 @@ theorem C02_frame (w : World) (op : Op) (c : CtxId) (hc : opCtx w op ≠ some c)
   | new t c' parent => rw [step_new_frame w t c' parent c (fun e => hc (by rw [opCtx, e]))]
   | enter t c' => exact hco (step_enter_frame w t c' c (fun e => hc (by rw [opCtx, e])))
   | exit t c' be => exact hco (step_exit_frame w t c' be c (fun e => hc (by rw [opCtx, e])))
+  | exitMid t c' be k => exact hco (step_exitMid_frame w t c' be k c (fun e => hc (by rw [opCtx, e])))
   | add c' a => rw [step, onCtx_frame w c c' _ (fun e => hc (by rw [opCtx, e]))]
   | addFactory c' a => rw [step, onCtx_frame w c c' _ (fun e => hc (by rw [opCtx, e]))]
   | getNowait c' k opt => rw [step, onCtx_frame w c c' _ (fun e => hc (by rw [opCtx, e]))]
